@@ -376,6 +376,24 @@ func c18Exec(c c18Case, st *lab.Stats) *lab.Fail {
 			cfg = &tls.Config{RootCAs: tg.validCfg.RootCAs, ServerName: "localhost", GetClientCertificate: forceCert(*tg.sibling)}
 		case "tls-selfsigned":
 			cfg = &tls.Config{RootCAs: tg.validCfg.RootCAs, ServerName: "localhost", GetClientCertificate: forceCert(selfSigned)}
+		case "tls-padded-otherca", "tls-padded-selfsigned":
+			// the offender holds the key of its own (foreign) certificate only, and pads the chain it presents with the
+			// PUBLIC certificate of a genuine client: possession is proved for the first certificate alone
+			own := alt.Client
+			if o.Kind == "tls-padded-selfsigned" {
+				own = selfSigned
+			}
+			padded := tls.Certificate{PrivateKey: own.PrivateKey, Certificate: append([][]byte{}, own.Certificate...)}
+			var genuine *tls.Certificate
+			if len(tg.validCfg.Certificates) > 0 {
+				genuine = &tg.validCfg.Certificates[0]
+			} else if tg.validCfg.GetClientCertificate != nil {
+				genuine, _ = tg.validCfg.GetClientCertificate(&tls.CertificateRequestInfo{})
+			}
+			if genuine != nil {
+				padded.Certificate = append(padded.Certificate, genuine.Certificate...)
+			}
+			cfg = &tls.Config{RootCAs: tg.validCfg.RootCAs, ServerName: "localhost", GetClientCertificate: forceCert(padded)}
 		default: // valid
 			cfg = tg.validCfg
 		}
@@ -449,7 +467,7 @@ func c18Exec(c c18Case, st *lab.Stats) *lab.Fail {
 		if o.Kind == "tls-resume-foreign" && !tg.mtls {
 			continue // without client authentication there is nothing foreign about it
 		}
-		allowed := o.Kind == "valid" || (!tg.mtls && (o.Kind == "tls-nocert" || o.Kind == "tls-otherca" || o.Kind == "tls-selfsigned" || o.Kind == "tls-siblingca"))
+		allowed := o.Kind == "valid" || (!tg.mtls && (o.Kind == "tls-nocert" || o.Kind == "tls-otherca" || o.Kind == "tls-selfsigned" || o.Kind == "tls-siblingca" || o.Kind == "tls-padded-otherca" || o.Kind == "tls-padded-selfsigned"))
 		ran := false
 		if tg.dir == nil {
 			_, ran = tg.entered.Load(ids[i])
@@ -498,10 +516,10 @@ func TestC18(t *testing.T) {
 	ops := []string{"bind", "search", "modify", "add", "delete", "extended", "unbind"}
 	kinds := []string{"plaintext", "plaintext", "random", "silent", "partial-hello", "tls-nocert", "tls-otherca", "tls-siblingca", "tls-selfsigned", "valid",
 		"plaintext", "random", "silent", "partial-hello", "tls-nocert", "tls-otherca", "tls-siblingca", "tls-selfsigned", "valid", "silent-flood",
-		"tls-then-plaintext", "tls-then-plaintext", "tls-resume-foreign", "tls-resume-foreign"}
+		"tls-then-plaintext", "tls-then-plaintext", "tls-resume-foreign", "tls-resume-foreign", "tls-padded-otherca", "tls-padded-otherca", "tls-padded-selfsigned"}
 	lab.Prop[c18Case]{
 		ID: "C18", Part: "tls-gate",
-		Rule: "rapid: targets = gldap.Server with the repository's own GetTLSConfig (server-auth only / WithMTLS) and a testdirectory.Directory started WithMTLS; 1..6 concurrent offenders per case = plaintext request of each of the 7 operations, random bytes, connect-and-stay-silent, partial ClientHello cut at a generated offset, TLS client without certificate, with a certificate of another CA, of a sibling deployment made by the same generator (same subject and serial, different CA key), self-signed (each of these TLS offenders with the deployment's host name, no SNI at all or a foreign / case-variant server name), a flood of 2*NumCPU+8 silent connections held open while a conforming client arrives, a conforming session that sends close_notify and continues in plaintext on the same TCP connection, a client of another mTLS deployment in the same process that offers the TLS session it resumed from there, plus the valid client, alongside 1..4 conforming bystanders; oracle = no handler entry (plain servers: recording handler keyed by reserved message IDs; directory: the Add the offender sent has no effect visible to a conforming client) and no response for offenders, no handler entry at all for a message that no client sent (e.g. an unbind handler run on behalf of a connection that never completed its handshake), bystanders and valid clients served; non-trivial = an offender that got as far as sending an LDAP request; distinct by hash of (target, offender)",
+		Rule: "rapid: targets = gldap.Server with the repository's own GetTLSConfig (server-auth only / WithMTLS) and a testdirectory.Directory started WithMTLS; 1..6 concurrent offenders per case = plaintext request of each of the 7 operations, random bytes, connect-and-stay-silent, partial ClientHello cut at a generated offset, TLS client without certificate, with a certificate of another CA, of a sibling deployment made by the same generator (same subject and serial, different CA key), self-signed, a foreign or self-signed certificate (whose key the offender holds) padded with the PUBLIC certificate of a genuine client (each of these TLS offenders with the deployment's host name, no SNI at all or a foreign / case-variant server name), a flood of 2*NumCPU+8 silent connections held open while a conforming client arrives, a conforming session that sends close_notify and continues in plaintext on the same TCP connection, a client of another mTLS deployment in the same process that offers the TLS session it resumed from there, plus the valid client, alongside 1..4 conforming bystanders; oracle = no handler entry (plain servers: recording handler keyed by reserved message IDs; directory: the Add the offender sent has no effect visible to a conforming client) and no response for offenders, no handler entry at all for a message that no client sent (e.g. an unbind handler run on behalf of a connection that never completed its handshake), bystanders and valid clients served; non-trivial = an offender that got as far as sending an LDAP request; distinct by hash of (target, offender)",
 		Gen: func(t *rapid.T) c18Case {
 			c := c18Case{
 				Target:     rapid.SampledFrom([]string{"server-tls", "server-mtls", "server-mtls", "dir-mtls", "dir-mtls"}).Draw(t, "target"),
